@@ -294,6 +294,14 @@ class LinOp:
         return f"<linop {self.name}>"
 
 
+class ListTail:
+    """lst[-n:] for a python list with symbolic n."""
+
+    def __init__(self, lst, n):
+        self.lst = lst
+        self.n = n
+
+
 class PyFunc:
     """A callable supplied by the rule (models a user callback)."""
 
@@ -817,6 +825,9 @@ class Interp:
                 v = self.as_vec(base)
                 return v.x if c == 0 else v.y
             raise Unsupported(f"column index {ast.unparse(node)}")
+        if isinstance(sl, ast.Slice) and isinstance(base, list) and sl.upper is None and sl.step is None \
+                and isinstance(sl.lower, ast.UnaryOp) and isinstance(sl.lower.op, ast.USub):
+            return ListTail(base, self.eval(sl.lower.operand, fr))
         if isinstance(sl, ast.Slice):
             if sl.lower is None and sl.step is None and sl.upper is not None:
                 n = self.eval(sl.upper, fr)
@@ -1156,7 +1167,34 @@ class Interp:
         if isinstance(v, (Vec2, Field)) and k.get("axis") == 1:
             v = self.as_vec(v)
             return self.T.sqrt_of(v.x * v.x + v.y * v.y)
+        if isinstance(v, Rat) and k.get("axis") == 1:
+            return self.T.app("rownorm", [v], sign="nonneg")
         raise Unsupported("np.linalg.norm outside the (n,2) axis=1 idiom")
+
+    def x_numpy_mean(self, a, k):
+        v = a[0]
+        if isinstance(v, ListTail):
+            last = v.lst[-1] if v.lst else self.const(0)
+            return self.T.app("mean_tail", [self.as_term(v.n), self.as_term(last)], sign="nonneg")
+        return self.T.app("mean", [self.as_term(v)])
+
+    def x_numpy_clip(self, a, k):
+        return self.T.app("clip", [self.as_term(x) for x in a[:3]])
+
+    def x_numpy_minimum(self, a, k):
+        return self.T.app("min", [self.as_term(x) for x in a[:2]])
+
+    def x_numpy_maximum(self, a, k):
+        return self.T.app("max", [self.as_term(x) for x in a[:2]])
+
+    def x_numpy_max(self, a, k):
+        return self.T.app("max", [self.as_term(a[0])])
+
+    def x_builtins_min(self, a, k):
+        vals = a if len(a) > 1 else list(a[0])
+        if all(isinstance(v, (int, Fr)) for v in vals):
+            return min(vals)
+        return self.T.app("min", [self.as_term(v) for v in vals])
 
     def x_numpy_where(self, a, k):
         return (Opaque("where"),)
@@ -1362,6 +1400,12 @@ class Interp:
             if it.optional_vars is not None:
                 self.assign(it.optional_vars, v, fr)
         self.exec_block(s.body, fr)
+
+    def s_Delete(self, s, fr):
+        for t in s.targets:
+            if isinstance(t, ast.Subscript) and isinstance(self.eval(t.value, fr), list):
+                continue      # trimming of a history list: no effect on the values still referenced
+            raise Unsupported(f"del {ast.unparse(t)}")
 
     def s_For(self, s, fr):
         it = self.eval(s.iter, fr)
